@@ -206,3 +206,8 @@ SUBS = [
     Sub("tees", check_tee, strategy=tee_case, quick=6000, thorough=100000),
 ]
 KNOWN = {}
+
+# second use of one view object after its sources were edited (shared sub-check, see pv/reuse.py)
+from pv import reuse  # noqa: E402
+SUBS.append(reuse.sub(ID))
+RULE += reuse.RULE
